@@ -47,7 +47,9 @@ def main():
             traceback.print_exc()
             eng.cur = None
     for o in eng.obls.values():
-        if pat and pat not in o.name and pat not in re.sub(r"[\w\-]+/", "", o.name): continue
+        fpart, _, opart = o.name.rpartition("/")
+        import os
+        if pat and not os.environ.get("GDTV_PRINT_ALL") and pat not in o.name and pat not in (re.sub(r"[\w\-]+/", "", fpart) + "/" + opart): continue
         if rel is not None and o.kind not in ("lock", "ownership", "lock-inv", "guarantee", "pre", "blocking", "coverage"): continue
         if o.verdict == "discharged" and o.covered is not False and "-v" not in sys.argv: continue
         print("  %-10s %s inst=%d ms=%.0f %s" % (o.verdict, o.name, o.instances, o.ms, "" if o.covered is not False else "VACUOUS-ANTECEDENT"))
